@@ -188,7 +188,7 @@ def check_load_paths(ctx, tz, name, path, data, rz, rng):
         ctx.distinct('loadpath|%s|%s' % (name, k))
 
 
-def check_archive(ctx, tz, members, rng, metadata='last'):
+def check_archive(ctx, tz, members, rng, metadata='last', links_first=False):
     """ZoneInfoFile over a tar archive built by the harness, including link entries"""
     from dateutil.zoneinfo import ZoneInfoFile
     import random
@@ -200,23 +200,39 @@ def check_archive(ctx, tz, members, rng, metadata='last'):
     with tarfile.open(fileobj=buf, mode='w:gz') as tf:
         if metadata == 'first':
             tf.addfile(mti, io.BytesIO(meta))
-        for name, path, data, rz in members:
-            ti = tarfile.TarInfo(name)
-            ti.size = len(data)
-            tf.addfile(ti, io.BytesIO(data))
-        first = members[0][0]
-        hl = tarfile.TarInfo('Link/Hard')
-        hl.type = tarfile.LNKTYPE
-        hl.linkname = first
-        tf.addfile(hl)
-        sl = tarfile.TarInfo('Link/Sym')
-        sl.type = tarfile.SYMTYPE
-        sl.linkname = members[-1][0]
-        tf.addfile(sl)
+
+        def add_members():
+            for name, path, data, rz in members:
+                ti = tarfile.TarInfo(name)
+                ti.size = len(data)
+                tf.addfile(ti, io.BytesIO(data))
+
+        def add_links():
+            # (a link entry may precede its target in the archive: an alphabetically written tree)
+            hl = tarfile.TarInfo('Link/Hard')
+            hl.type = tarfile.LNKTYPE
+            hl.linkname = members[0][0]
+            tf.addfile(hl)
+            sl = tarfile.TarInfo('Link/Sym')
+            sl.type = tarfile.SYMTYPE
+            sl.linkname = members[-1][0]
+            tf.addfile(sl)
+        if links_first:
+            ctx.count('archives_links_first')
+            add_links()
+            add_members()
+        else:
+            add_members()
+            add_links()
         if metadata == 'last':
             tf.addfile(mti, io.BytesIO(meta))
     buf.seek(0)
-    zf = ZoneInfoFile(buf)
+    try:
+        zf = ZoneInfoFile(buf)
+    except Exception as e:
+        ctx.violation('archive-rejected', {'load_path': 'archive', 'metadata_member': metadata, 'links_first': links_first},
+                      'ZoneInfoFile raised %s: %s on a well-formed archive' % (type(e).__name__, e))
+        return
     # an archive without the METADATA member is supported: zones and link entries load, metadata is None
     if (zf.metadata is None) != (metadata == 'none'):
         ctx.violation('archive-metadata', {'load_path': 'archive', 'metadata_member': metadata}, 'ZoneInfoFile.metadata = %r' % (zf.metadata,))
@@ -299,8 +315,8 @@ def run(ctx):
         for name, path, data, rz, sh in mine[:6]:
             check_load_paths(ctx, tz, name, path, data, rz, rng)
         if mine:
-            for metadata in ('last', 'none', 'first'):
-                check_archive(ctx, tz, [(n, p, d, r) for n, p, d, r, s in mine[:5]], rng, metadata)
+            for metadata, links_first in (('last', False), ('none', False), ('first', False), ('last', True), ('none', True)):
+                check_archive(ctx, tz, [(n, p, d, r) for n, p, d, r, s in mine[:5]], rng, metadata, links_first)
         # synthetic files (every shard takes a slice)
         syn = tzzoo.synthetic(rng, wild=True)
         tmpd = tempfile.mkdtemp(prefix='vfc06')
@@ -345,7 +361,7 @@ def floors(agg, tier):
             out.append('no real file with shape %s was reached' % s)
     for k in ('loadpath_path', 'loadpath_stream', 'loadpath_gettz', 'loadpath_pickle', 'loadpath_copy', 'loadpath_deepcopy',
               'loadpath_archive', 'loadpath_archive_link', 'loadpath_archive_pickle', 'archives_metadata_last', 'archives_metadata_none',
-              'archives_metadata_first'):
+              'archives_metadata_first', 'archives_links_first'):
         if c.get(k, 0) < 4:
             out.append('load path %s exercised only %d times' % (k, c.get(k, 0)))
     for k in ('tzfile.fromutc', 'tzfile.utcoffset', 'tzfile.tzname', 'tzfile.dst'):
